@@ -74,8 +74,8 @@ var ioTokenSpecs = map[string]TokSpec{
 	"inv1m":      {Kind: "inv", Alg: "ed25519", Opts: map[string]string{"nonce": "12", "iat": "none", "size:arg-str": "1100000"}},
 	"dlg2":       {Kind: "dlg", Alg: "p256", Opts: map[string]string{"nonce": "12", "sub": "other", "meta": "k=str-invtag"}},
 	"dlgsamesec": {Kind: "dlg", Alg: "ed25519", Key: 2, Opts: map[string]string{"nonce": "12", "nbf": "subsec", "exp": "subsec-up"}}, // not-before and expiration inside one wall-clock second
-	"dlgslash":   {Kind: "dlg", Alg: "ed25519", Key: 1, Opts: map[string]string{"nonce": "12", "meta": "k=map-slash"}},         // metadata {"/": "not-a-cid"}: a map, sealed as a map
-	"invslash":   {Kind: "inv", Alg: "ed25519", Opts: map[string]string{"nonce": "12", "iat": "none", "args": "k=map-slash-bytes"}}, // arguments holding {"/": {"bytes": ...}} and {"/": "<cid text>"} maps
+	"dlgslash":   {Kind: "dlg", Alg: "ed25519", Key: 1, Opts: map[string]string{"nonce": "12", "meta": "k=map-slash"}},               // metadata {"/": "not-a-cid"}: a map, sealed as a map
+	"invslash":   {Kind: "inv", Alg: "ed25519", Opts: map[string]string{"nonce": "12", "iat": "none", "args": "k=map-slash-bytes"}},  // arguments holding {"/": {"bytes": ...}} and {"/": "<cid text>"} maps
 	"dlgrsa8k":   {Kind: "dlg", Alg: "ed25519", Opts: map[string]string{"nonce": "12", "aud": "rsa8192"}},
 	"inv2":       {Kind: "inv", Alg: "secp256k1", Opts: map[string]string{"nonce": "12", "iat": "none", "prf": "odd", "args": "k=str-dlgtag"}},
 }
